@@ -4,6 +4,10 @@ import json, os
 HERE = os.path.dirname(os.path.abspath(__file__))
 VERIF = os.path.dirname(HERE)
 entries = json.load(open(os.path.join(HERE, 'manifest_entries.json')))
+import glob
+for path in sorted(glob.glob(os.path.join(HERE, 'manifest.d', 'C*.json'))):
+    pid = os.path.basename(path)[:-5]
+    entries['claimed'][pid] = json.load(open(path))
 props = [json.loads(l)['id'] for l in open(os.path.join(VERIF, 'properties.jsonl'))]
 checks = []
 for pid in props:
